@@ -9,6 +9,7 @@
 #include <algorithm>
 #include <functional>
 #include <tuple>
+#include <type_traits>
 
 namespace igris
 {
@@ -94,6 +95,19 @@ namespace igris
                      &timer_head_basic<TimeSpec>::lnk>
             timer_list = {};
 
+        // deadline a comes before deadline b. A wrapping (unsigned) tick
+        // counter is compared like check() does it: by the difference,
+        // read as signed, so that a deadline just after the wrap-around is
+        // later than one just before it.
+        static bool earlier(time_t a, time_t b)
+        {
+            if constexpr (std::is_unsigned<time_t>::value)
+                return static_cast<typename std::make_signed<time_t>::type>(
+                           static_cast<time_t>(a - b)) < 0;
+            else
+                return a < b;
+        }
+
     public:
         timer_manager_basic() = default;
 
@@ -107,7 +121,7 @@ namespace igris
             auto it = std::find_if(timer_list.begin(),
                                    timer_list.end(),
                                    [&](const auto &tim)
-                                   { return finish < tim.finish(); });
+                                   { return earlier(finish, tim.finish()); });
 
             timer_list.move_prev(tim, it);
             system_unlock();
